@@ -22,6 +22,8 @@ from paramdev import World
 
 warnings.filterwarnings("ignore", category=RuntimeWarning)   # "coroutine ... was never awaited" of an aborted schedule response
 
+CAPTURE_ROUTES = ["data[]", "get_nowait", "getattr", "await get", "subscribe", "subscribe(on_change)"]
+
 KINDS = {"EcomaxNumber": "ecomax", "EcomaxSwitch": "ecomax", "MixerNumber": "mixer", "MixerSwitch": "mixer",
          "ThermostatNumber": "thermostat", "ThermostatSwitch": "thermostat", "ScheduleNumber": "schedule",
          "ScheduleSwitch": "schedule"}
@@ -64,12 +66,12 @@ def ev_mixer(start, per_mixer, truncate=None):
     return dict(kind="M", payload=payload.hex(), ref=ref, desc=f"mixers={len(per_mixer)} start={start}")
 
 
-def ev_thermostat(start, T, per, profile, per_thermostat, sizes, truncate=None, count_field=None):
+def ev_thermostat(start, T, per, profile, per_thermostat, sizes, truncate=None, count_field=None, controller_per=None):
     cf = (per + start) * T + (1 if T > 1 else 0) - start if count_field is None else count_field
     # the decoder reads positions start .. (start+count)//T - 1 per thermostat
     payload = pd.thermostat_payload(start, cf % 256, profile, per_thermostat, sizes)
     ok = cf < 256 and (start + cf) // T - start == per
-    ref = dict(profile=profile, per=per, T=T,
+    ref = dict(profile=profile, per=per, T=T, N=controller_per if controller_per is not None else per,
                blocks={t: [(start + k, tr) for k, tr in enumerate(sl) if tr is not None] for t, sl in enumerate(per_thermostat)},
                holes={t: any(tr is None for tr in sl) for t, sl in enumerate(per_thermostat)})
     ref["blocks"] = {t: it for t, it in ref["blocks"].items() if it}
@@ -98,6 +100,14 @@ def ev_state(st):
     return dict(kind="Z", st=st, desc=f"state={st}")
 
 
+def ev_keep(k=None):
+    return dict(kind="KEEP", k=k, desc="the client obtains (data[], get_nowait, attribute, await get, subscription callback) and keeps parameter objects")
+
+
+def ev_setkept():
+    return dict(kind="SETK", desc="the client writes through every kept object (set, set_nowait, turn_on/off forms)")
+
+
 def ev_sets(k=None):
     return dict(kind="SETS", k=k, desc="set every (or k sampled) named parameter to another value inside its bounds")
 
@@ -116,6 +126,65 @@ def gen_histories(rng, tier, tables):
         else:
             yield label, product, [ev_uid()] + evs
     yield from gen_arrival_order(rng, tier, tables)
+    yield from gen_kept_objects(rng, tier, tables)
+    # F8 (candidate finding, same root cause as F3): the FIRST thermostat response is a legal partial one (fewer parameters
+    # per thermostat than the controller has), a full one follows: parameters created by the partial response keep
+    # offset = t x (length of the partial response) for ever
+    t = tables["tables"]
+    sizes = [r["size"] for r in t["thermostat"]]
+    N = len(sizes)
+    for k in ((5,) if tier == "quick" else (1, 5, 9)):
+        yield "thermostats-partial-first", pd.PRODUCT_P, [
+            ev_uid(), ev_avail(2),
+            ev_thermostat(0, 2, k, (1, 0, 5), [[rand_triple(rng, sizes[i], 0.0) for i in range(k)] for _ in range(2)], sizes, controller_per=N),
+            ev_keep(None),
+            ev_thermostat(0, 2, N, (1, 0, 5), [[rand_triple(rng, sizes[i], 0.0) for i in range(N)] for _ in range(2)], sizes),
+            ev_setkept(), ev_sets()]
+
+
+def gen_kept_objects(rng, tier, tables):
+    """the client KEEPS parameter objects; the controller then reports the same blocks with another start / count /
+    hole pattern / number of mixers / number of thermostats (the kept name may sit elsewhere in the payload, or not be
+    reported at all), the profile disappears and comes back, the state changes; then the client writes through the
+    kept objects, by every public write route"""
+    quick = tier == "quick"
+    t = tables["tables"]
+    sizes = [r["size"] for r in t["thermostat"]]
+    N = len(sizes)
+    nsched = len(tables["schedules"])
+    for rep in range(3 if quick else 40):
+        for product, pname in ((pd.PRODUCT_P, "P"), (pd.PRODUCT_I, "I")):
+            L, LM = len(t["ecomax" + pname]), len(t["mixer" + pname])
+            full = [ev_uid(), ev_ecomax(0, [rand_triple(rng, 1, 0.0) for _ in range(min(L, 200))]),
+                    ev_mixer(0, [[rand_triple(rng, 1, 0.0) for _ in range(LM)] for _ in range(3)]),
+                    ev_avail(2), ev_thermostat(0, 2, N, (2, 0, 5), [[rand_triple(rng, sizes[k], 0.0) for k in range(N)] for _ in range(2)], sizes),
+                    ev_schedules([(i, rng.randrange(2), rand_triple(rng, 1, 0.0), rand_bits(rng)) for i in range(nsched)]),
+                    ev_state(2)]
+
+            def other_reports():
+                evs = []
+                start = rng.randrange(1, max(2, L - 5))
+                evs.append(ev_ecomax(start, [rand_triple(rng, 1, 0.4) for _ in range(rng.randrange(1, min(30, L - start + 3)))]))
+                mstart = rng.randrange(0, LM)
+                mcnt = rng.randrange(1, LM - mstart + 2)
+                evs.append(ev_mixer(mstart, [[rand_triple(rng, 1, 0.4) for _ in range(mcnt)] for _ in range(rng.randrange(1, 5))]))
+                T = rng.choice([1, 2, 3])
+                evs.append(ev_avail(T))
+                evs.append(ev_thermostat(0, T, N, rng.choice([None, (3, 0, 5)]),
+                                         [[rand_triple(rng, sizes[k], 0.4) for k in range(N)] for _ in range(T)], sizes))
+                evs.append(ev_schedules([(i, rng.randrange(2), rand_triple(rng, 1, 0.3), rand_bits(rng))
+                                         for i in rng.sample(range(nsched), rng.randrange(1, 6))]))
+                evs.append(ev_state(rng.choice([0, 3, 5])))
+                rng.shuffle(evs)
+                # thermostats_available has to precede its response
+                ai = next(i for i, e in enumerate(evs) if e["kind"] == "A")
+                ti = next(i for i, e in enumerate(evs) if e["kind"] == "T")
+                if ai > ti:
+                    evs[ai], evs[ti] = evs[ti], evs[ai]
+                return evs
+
+            evs = full + [ev_keep(40 if quick else 120)] + other_reports() + [ev_setkept()] + other_reports() + [ev_setkept(), ev_sets(20)]
+            yield "kept", product, evs
 
 
 def gen_arrival_order(rng, tier, tables):
@@ -321,21 +390,68 @@ async def run_history(product, evs, seed):
     sched_state = {}      # schedule index -> bitmap hex as last reported (None: unknown after a malformed response)
     nsched = len(pd.load_tables()["schedules"])
 
-    async def do_set(label, name, v):
+    kept = []             # objects the client keeps: dict(label, name, route, obj | holder)
+
+    def kept_obj(i):
+        kk = kept[i]
+        return kk["obj"] if "obj" in kk else kk["holder"].get("obj")
+
+    def routes_for(label, name, cls, v, by_name_ok):
+        rs = ["parameter.set", "parameter.set_nowait"]
+        if by_name_ok:
+            rs += ["device.set", "device.set_nowait"]
+        if cls.endswith("Switch") and v in (0, 1):
+            rs += ["switch.turn", "switch.turn_nowait"]
+            if by_name_ok and label == "ecomax" and name == "ecomax_control":
+                rs += ["ecomax.turn", "ecomax.turn_nowait"]
+        return rs
+
+    async def do_set(label, name, v, route=None, kept_i=None):
+        import asyncio
         dev = dict(w.devices()).get(label)
-        p = dev.data.get(name) if dev is not None else None
+        cur = dev.data.get(name) if dev is not None else None
+        p = kept_obj(kept_i) if kept_i is not None else cur
+        live = kept_i is None or (cur is p)
         dw = "e" if label == "ecomax" else ("m" + label[5:] if label.startswith("mixer") else "t" + label[10:])
-        words.append(f"W:{dw}:{name}:{v}")
-        concrete.append(dict(kind="SET", label=label, name=name, v=v, desc=f"set {label}.{name}={v}"))
         if p is None or not isinstance(p, pd.Parameter):
-            outs.append("noparam")
+            if kept_i is None:
+                words.append(f"W:{dw}:{name}:{v}")
+                concrete.append(dict(kind="SET", label=label, name=name, v=v, desc=f"set {label}.{name}={v}"))
+                outs.append("noparam")
             return
-        cls, index, triple, offset, devindex, size = w.snapshot()[label][name]
-        r, frames = await pd.run_set(w, lambda: p.set(display_for(p, v), retries=1, timeout=0.01))
+        cls = type(p).__name__
+        if route is None:
+            route = rng.choice(routes_for(label, name, cls, v, by_name_ok=live))
+        disp = display_for(p, v)
+        on = v == 1
+
+        async def nowait(call, wait):
+            call()
+            await asyncio.sleep(wait)
+
+        setter = {
+            "parameter.set": lambda: p.set(disp, retries=1, timeout=0.01),
+            "parameter.set_nowait": lambda: nowait(lambda: p.set_nowait(disp, retries=1, timeout=0.01), 1.0),
+            "device.set": lambda: dev.set(name, disp, retries=1),
+            "device.set_nowait": lambda: nowait(lambda: dev.set_nowait(name, disp, retries=1), 10.0),
+            "switch.turn": lambda: (p.turn_on() if on else p.turn_off()),
+            "switch.turn_nowait": lambda: nowait((p.turn_on_nowait if on else p.turn_off_nowait), 40.0),
+            "ecomax.turn": lambda: (w.ecomax.turn_on() if on else w.ecomax.turn_off()),
+            "ecomax.turn_nowait": lambda: nowait((w.ecomax.turn_on_nowait if on else w.ecomax.turn_off_nowait), 40.0),
+        }[route]
+        index, triple = p._index, (p.values.value, p.values.min_value, p.values.max_value)
+        offset, size = getattr(p, "offset", None), getattr(p.description, "size", 1)
+        concrete.append(dict(kind="SET", label=label, name=name, v=v, route=route, kept=kept_i,
+                             desc=f"set {label}.{name}={v} via {route}" + ("" if kept_i is None else " on a kept object")))
+        r, frames = await pd.run_set(w, setter)
         o = frame_out(r, frames)
-        outs.append(o)
+        if o == "noframe" and route.endswith("nowait"):
+            o = "reqerror"     # the *_nowait forms run set() in a background task: an exception there is only visible as "nothing queued"
+        if live:
+            words.append(f"W:{dw}:{name}:{v}")
+            outs.append(o)
         rec = dict(label=label, name=name, v=v, out=o, triple=list(triple), cls=cls, index=index,
-                   offset=offset, size=size, after=p.values.value)
+                   offset=offset, size=size, after=p.values.value, route=route, kept=kept_i is not None, stale=not live)
         for suffix in ("_schedule_switch", "_schedule_parameter"):
             if cls.startswith("Schedule") and name.endswith(suffix):
                 prefix = name[: -len(suffix)]
@@ -345,9 +461,40 @@ async def run_history(product, evs, seed):
                                     parameter=eco.get(prefix + "_schedule_parameter", [None, None, [None]])[2][0])
         sets.append(rec)
 
+    async def keep(items):
+        """the client obtains parameter objects and keeps them: (label, name, capture route)"""
+        concrete.append(dict(kind="KEEPX", items=[list(x) for x in items], desc=f"client keeps {len(items)} parameter objects"))
+        for label, name, route in items:
+            dev = dict(w.devices()).get(label)
+            if dev is None:
+                kept.append(dict(label=label, name=name, route=route, obj=None))
+                continue
+            if route in ("subscribe", "subscribe(on_change)"):
+                holder = {}
+
+                async def cb(value, holder=holder):
+                    holder["obj"] = value
+
+                if route == "subscribe":
+                    dev.subscribe(name, cb)
+                else:
+                    from pyplumio.filters import on_change
+                    dev.subscribe(name, on_change(cb))
+                kept.append(dict(label=label, name=name, route=route, holder=holder))
+                continue
+            if route == "data[]":
+                obj = dev.data.get(name)
+            elif route == "get_nowait":
+                obj = dev.get_nowait(name)
+            elif route == "getattr":
+                obj = getattr(dev, name, None)
+            else:
+                obj = await dev.get(name, timeout=1)
+            kept.append(dict(label=label, name=name, route=route, obj=obj))
+
     for ev in evs:
         k = ev["kind"]
-        if k != "SETS":
+        if k not in ("SETS", "SET", "KEEP", "KEEPX", "SETK"):
             concrete.append(ev)
         if k == "U":
             before = w.snapshot()
@@ -355,7 +502,27 @@ async def run_history(product, evs, seed):
             words.append("U")
             snaps.append((ev, before, w.snapshot(), None, tavail))
         elif k == "SET":
-            await do_set(ev["label"], ev["name"], ev["v"])
+            await do_set(ev["label"], ev["name"], ev["v"], route=ev.get("route"), kept_i=ev.get("kept"))
+        elif k == "KEEPX":
+            await keep([tuple(x) for x in ev["items"]])
+        elif k == "KEEP":
+            snap = w.snapshot()
+            targets = [(label, name) for label in sorted(snap) for name in sorted(snap[label])]
+            if ev["k"] is not None and len(targets) > ev["k"]:
+                must = [x for x in targets if x[1] in ("thermostat_profile", "ecomax_control")]
+                targets = sorted(set(rng.sample(targets, ev["k"])) | set(must))
+            await keep([(label, name, rng.choice(CAPTURE_ROUTES)) for label, name in targets])
+        elif k == "SETK":
+            # the client writes through the objects it kept (whatever the controller reported meanwhile)
+            for i in range(len(kept)):
+                obj = kept_obj(i)
+                if obj is None or not isinstance(obj, pd.Parameter):
+                    continue
+                triple = (obj.values.value, obj.values.min_value, obj.values.max_value)
+                v = pick_value(rng, triple, getattr(obj.description, "size", 1))
+                if v is None:
+                    continue
+                await do_set(kept[i]["label"], kept[i]["name"], v, kept_i=i)
         elif k in "EMTS":
             payload = bytes.fromhex(ev["payload"])
             feed = {"E": w.ecomax_params, "M": w.mixer_params, "T": w.thermostat_params, "S": w.schedules}[k]
@@ -444,7 +611,8 @@ def judge(product, evs, snaps, sets, tables):
             items = [(f"mixer{m}", "mixer", p, tr, dict(dev=m)) for m, its in ev["ref"].items() for p, tr in its]
         elif ev["kind"] == "T":
             ref = ev["ref"]
-            items = [(f"thermostat{th}", "thermostat", p, tr, dict(dev=th, per=ref["per"], hole=ref["holes"][th]))
+            items = [(f"thermostat{th}", "thermostat", p, tr, dict(dev=th, per=ref.get("N", ref["per"]), hole=ref["holes"][th],
+                                                                    partial=ref.get("N", ref["per"]) != ref["per"]))
                      for th, its in ref["blocks"].items() for p, tr in its]
             if tavail == 0:
                 items = []
@@ -525,7 +693,7 @@ def judge(product, evs, snaps, sets, tables):
         elif o["kind"] == "thermostat":
             slot = o["pos"] + 1 + o["dev"] * o["per"]
             want = "SetThermostatParameterRequest:" + ".".join(str(x) for x in [slot] + list(v.to_bytes(s["size"], "little")))
-            finding = "F3" if (o["dev"] >= 1 and o["hole"]) else None
+            finding = "F3" if (o["dev"] >= 1 and o["hole"]) else ("F8" if (o["dev"] >= 1 and o.get("partial")) else None)
         elif o["kind"] == "schedule" and "sched" in s:
             idx = o["pos"] // 2
             sc = s["sched"]
@@ -563,19 +731,27 @@ def run_cases(cases, res, tables, seed):
             res.count("event:" + ev["kind"])
         for s in sets:
             res.count("request:" + s["out"].split(":")[0])
+            res.count("write route:" + s.get("route", "parameter.set"))
+            if s.get("kept"):
+                res.count("write through a kept object" + (" (stale: no longer the object in device.data)" if s.get("stale") else ""))
+        for ev in concrete:
+            if ev["kind"] == "KEEPX":
+                for _, _, cr in ev["items"]:
+                    res.count("capture route:" + cr)
         inp = dict(product="P" if product == pd.PRODUCT_P else "I", events=[{k: v for k, v in ev.items() if k != "desc"} for ev in concrete],
                    label=label, model_line=line)
         bad, judged = judge(product, evs, snaps, sets, tables)
         res.count("judged:" + str(judged))
-        f3_seen = False
+        f3_seen = set()
         for clause, detail, finding in bad:
             kw = dict(finding=finding) if finding else {}
-            if finding == "F3":
-                res.count("F3 failures")
-                if f3_seen or res.extra.get("f3_recorded", 0) >= 5:
-                    continue    # one recorded F3 failure per history, five per run, is enough
-                f3_seen = True
-                res.extra["f3_recorded"] = res.extra.get("f3_recorded", 0) + 1
+            if finding in ("F3", "F8"):
+                res.count(finding + " failures")
+                key = finding.lower() + "_recorded"
+                if finding in f3_seen or res.extra.get(key, 0) >= (5 if finding == "F3" else 2):
+                    continue    # one recorded failure of a known finding per history, a few per run, is enough
+                f3_seen.add(finding)
+                res.extra[key] = res.extra.get(key, 0) + 1
             res.fail("spec", inp, "statement of C07", detail, clause, **kw)
         f3_expected = any(f == "F3" for _, _, f in bad)
         if ans != obs:
